@@ -10,6 +10,19 @@ package core
 // when the ancestor holds a directory at its path; otherwise it becomes an
 // untracked entry without contents.  Nothing else changes, the inputs are not
 // mutated, and the returned directory counts are those of the results.
+//
+// That exact ("if and only if", problematic entries included) reading is
+// asserted on the triples without a *mixed level* (a path holding a directory
+// kind on one side and a file, symbolic link or problematic entry on the
+// other).  On triples with a mixed level the property itself says less - "an
+// excluded directory is synchronized ONLY IF it holds synchronized content or
+// was synchronized before", and no synchronized file or link is lost - and
+// that is what is asserted there (vtC15Conforms): a phantom directory MUST
+// become tracked when a file, a symbolic link or a tracked directory lies
+// below it on either side (or the ancestor has a directory), it MAY become
+// tracked when only a problematic entry does, and must become untracked
+// otherwise.  Triples that two scans sharing one ignore list cannot produce
+// (vtC15Incoherent) are not part of that harness.
 
 func vtC15DirKind(e *Entry) bool {
 	return e != nil && (e.Kind == EntryKind_Directory || e.Kind == EntryKind_PhantomDirectory)
@@ -96,6 +109,87 @@ func vtC15Expected(anc, a, b *Entry, side *Entry) *Entry {
 	}
 }
 
+// vtC15IsMust: an entry kind that every reading of the rule counts as tracked
+// content (a file, a symbolic link, a tracked directory).
+func vtC15IsMust(e *Entry) bool {
+	return e != nil && (e.Kind == EntryKind_File || e.Kind == EntryKind_SymbolicLink || e.Kind == EntryKind_Directory)
+}
+
+// vtC15ContentBelow: content lies below this conjoined level that obliges
+// (must) or at least permits (!must: problematic entries count too) a phantom
+// directory at this level to become tracked.
+func vtC15ContentBelow(anc, a, b *Entry, must bool) bool {
+	if anc != nil && anc.Kind == EntryKind_Directory {
+		return true
+	}
+	for _, n := range vtC15Names(a, b) {
+		ca, cb := vtC15Child(a, n), vtC15Child(b, n)
+		for _, e := range []*Entry{ca, cb} {
+			if vtC15IsMust(e) || (!must && e != nil && e.Kind == EntryKind_Problematic) {
+				return true
+			}
+		}
+		if (vtC15DirKind(ca) || vtC15DirKind(cb)) && vtC15ContentBelow(vtC15Child(anc, n), ca, cb, must) {
+			return true
+		}
+	}
+	return false
+}
+
+// vtC15Conforms: res is an admissible reification of side (one of a, b) at
+// this conjoined level: non-directory entries and tracked directories are
+// kept as they are; a phantom directory becomes an untracked entry without
+// contents only if nothing obliges it to be tracked, and a tracked directory
+// (with the same names, each conforming in turn) only if something permits it.
+func vtC15Conforms(anc, a, b, side, res *Entry) bool {
+	if side == nil || res == nil {
+		return side == nil && res == nil
+	}
+	if !vtC15DirKind(side) {
+		return vtDeepEqual(res, side)
+	}
+	if side.Kind == EntryKind_PhantomDirectory {
+		if res.Kind == EntryKind_Untracked {
+			return !vtC15ContentBelow(anc, a, b, true) && len(res.Contents) == 0 &&
+				vtSameNode(res, &Entry{Kind: EntryKind_Untracked})
+		}
+		if !vtC15ContentBelow(anc, a, b, false) {
+			return false
+		}
+	}
+	if !vtSameNode(res, &Entry{Kind: EntryKind_Directory}) || len(res.Contents) != len(side.Contents) {
+		return false
+	}
+	ok := true
+	for name, c := range side.Contents {
+		rc, present := res.Contents[name]
+		if !present {
+			return false
+		}
+		ok = vAnd(ok, vtC15Conforms(vtC15Child(anc, name), vtC15Child(a, name), vtC15Child(b, name), c, rc))
+	}
+	return ok
+}
+
+// vtC15Incoherent: some path holds a phantom directory on one side and a
+// tracked file, symbolic link or directory on the other.  Two scans that share
+// one ignore list (ignores cannot be endpoint-specific) cannot produce this:
+// the ignore status of a path is a function of the path alone, a phantom
+// directory is a directory under an ignore mask and a tracked file, link or
+// directory is content outside any mask (scan.go).
+func vtC15Incoherent(a, b *Entry) bool {
+	ph := func(e *Entry) bool { return e != nil && e.Kind == EntryKind_PhantomDirectory }
+	if (ph(a) && vtC15IsMust(b)) || (ph(b) && vtC15IsMust(a)) {
+		return true
+	}
+	for _, n := range vtC15Names(a, b) {
+		if vtC15Incoherent(vtC15Child(a, n), vtC15Child(b, n)) {
+			return true
+		}
+	}
+	return false
+}
+
 func vtC15CountKind(e *Entry, k EntryKind) uint64 {
 	n := uint64(0)
 	var walk func(e *Entry)
@@ -140,13 +234,16 @@ func VerifC15Reify() {
 	if vParam("onlyphantom", 1) == 1 {
 		vAssume(phantoms > 0)
 	}
-	// mixed = 0: exclude conjoined levels where one side holds a directory
-	// kind and the other tracked non-directory content; 1: only those; 2: all.
-	switch vParam("mixed", 2) {
-	case 0:
-		vAssume(!vtC15MixedLevel(alpha, beta))
-	case 1:
+	// mixed = 0: no conjoined level where one side holds a directory kind and
+	// the other tracked non-directory content (exact oracle); 1: only triples
+	// with such a level that two scans sharing an ignore list can produce
+	// (only-if oracle, see the head of this file).
+	mixed := vParam("mixed", 0) == 1
+	if mixed {
 		vAssume(vtC15MixedLevel(alpha, beta))
+		vAssume(!vtC15Incoherent(alpha, beta))
+	} else {
+		vAssume(!vtC15MixedLevel(alpha, beta))
 	}
 	vNote("ancestor=" + vtShow(anc) + " alpha=" + vtShow(alpha) + " beta=" + vtShow(beta))
 	ancBefore, alphaBefore, betaBefore := vtClone(anc), vtClone(alpha), vtClone(beta)
@@ -163,6 +260,20 @@ func VerifC15Reify() {
 	vAssert(na == vtC15CountKind(ra, EntryKind_Directory), "alpha directory count equals a recount of the result")
 	vAssert(nb == vtC15CountKind(rb, EntryKind_Directory), "beta directory count equals a recount of the result")
 
+	if mixed {
+		if vtC15CountKind(ra, EntryKind_Directory)+vtC15CountKind(rb, EntryKind_Directory) >
+			vtC15CountKind(alpha, EntryKind_Directory)+vtC15CountKind(beta, EntryKind_Directory) {
+			vCover("to-tracked")
+		}
+		if vtC15CountKind(ra, EntryKind_Untracked)+vtC15CountKind(rb, EntryKind_Untracked) >
+			vtC15CountKind(alpha, EntryKind_Untracked)+vtC15CountKind(beta, EntryKind_Untracked) {
+			vCover("to-untracked")
+		}
+		vAssert(vtC15Conforms(anc, alpha, beta, alpha, ra), "alpha: a phantom directory becomes tracked only if tracked content lies below or the ancestor has a directory there, and always if that content is a file, link or tracked directory; otherwise untracked without contents; nothing else changes")
+		vAssert(vtC15Conforms(anc, alpha, beta, beta, rb), "beta: a phantom directory becomes tracked only if tracked content lies below or the ancestor has a directory there, and always if that content is a file, link or tracked directory; otherwise untracked without contents; nothing else changes")
+		return
+	}
+
 	wa := vtC15Expected(anc, alpha, beta, alpha)
 	wb := vtC15Expected(anc, alpha, beta, beta)
 	if vtC15CountKind(wa, EntryKind_Directory)+vtC15CountKind(wb, EntryKind_Directory) >
@@ -177,13 +288,16 @@ func VerifC15Reify() {
 	vAssert(vtDeepEqual(rb, wb), "beta: phantom directories become tracked exactly when tracked content lies below or the ancestor has a directory there, otherwise untracked without contents; nothing else changes")
 }
 
-// VerifC15ProblematicUnderMask: the concrete scenario behind the mixed-level
-// violations that honest endpoints can produce.  Ignore rules "p", "!p/a/keep":
-// p and p/a are ignore-masked directories (phantom); on alpha p/a cannot be
-// scanned (mount point / permission denied) and is recorded as problematic, on
-// beta p/a is an ordinary directory holding only ignored content.  By the
-// documented rule a problematic entry is tracked content, so alpha's p must be
-// reified to a tracked directory (as it is when beta has no p/a at all).
+// VerifC15ProblematicUnderMask: the one mixed level that honest endpoints can
+// produce, as a concrete scenario.  Ignore rules "p", "!p/a/keep": p and p/a
+// are ignore-masked directories (phantom); on alpha p/a cannot be scanned
+// (mount point / permission denied) and is recorded as problematic, on beta p/a
+// is either absent or an ordinary directory holding only ignored content.
+// Whether the problematic entry makes alpha's p a tracked directory is not
+// fixed by the property (the code's answer differs between the two variants);
+// what is: the result conforms to the only-if rule, the problematic entry is
+// either kept as it is or hidden together with its untracked parent, and nothing
+// is invented.
 func VerifC15ProblematicUnderMask() {
 	mk := func(withBetaSub bool) (*Entry, *Entry) {
 		alpha := &Entry{Kind: EntryKind_Directory, Contents: map[string]*Entry{
@@ -201,20 +315,18 @@ func VerifC15ProblematicUnderMask() {
 		}
 		return alpha, beta
 	}
-	want := &Entry{Kind: EntryKind_Directory, Contents: map[string]*Entry{
-		"a": {Kind: EntryKind_Directory, Contents: map[string]*Entry{
-			"a": {Kind: EntryKind_Problematic, Problem: "scan crossed filesystem boundary"},
-		}},
-	}}
-
-	alpha, beta := mk(false)
-	ra, _, _, _ := ReifyPhantomDirectories(nil, alpha, beta)
-	vCover("beta lacks the sub-directory")
-	vAssert(vtDeepEqual(ra, want), "beta lacks p/a: alpha's masked directory holding a problematic entry becomes tracked")
-
-	alpha, beta = mk(true)
-	vNote("alpha=" + vtShow(alpha) + " beta=" + vtShow(beta))
-	ra, _, _, _ = ReifyPhantomDirectories(nil, alpha, beta)
-	vCover("beta has the sub-directory")
-	vAssert(vtDeepEqual(ra, want), "beta holds an ignored-only p/a: alpha's masked directory holding a problematic entry becomes tracked all the same")
+	for _, withBetaSub := range []bool{false, true} {
+		alpha, beta := mk(withBetaSub)
+		vNote("alpha=" + vtShow(alpha) + " beta=" + vtShow(beta))
+		ra, rb, na, nb := ReifyPhantomDirectories(nil, alpha, beta)
+		if withBetaSub {
+			vCover("beta has the sub-directory")
+		} else {
+			vCover("beta lacks the sub-directory")
+		}
+		vAssert(vtC15Conforms(nil, alpha, beta, alpha, ra), "problematic entry under an ignore mask: alpha result conforms to the only-if rule")
+		vAssert(vtC15Conforms(nil, alpha, beta, beta, rb), "problematic entry under an ignore mask: beta result conforms to the only-if rule")
+		vAssert(na == vtC15CountKind(ra, EntryKind_Directory), "problematic entry under an ignore mask: alpha directory count equals a recount of the result")
+		vAssert(nb == vtC15CountKind(rb, EntryKind_Directory), "problematic entry under an ignore mask: beta directory count equals a recount of the result")
+	}
 }
